@@ -14,7 +14,7 @@ Inductive skel :=
 | KInitCp | KParafac | KHalsNnls | KNnParafacHals | KInitTucker | KTucker | KFlipSign | KPermute
 | KKhatriRaoMask | KActiveSet | KModeDotCopy | KModeDotVecInplace | KModeDotMatInplace | KP2Slices | KPlsrFit
 | KCpNormalizeMethod | KTuckerNormalizeMethod
-| KPrw (nr ns dg : list nat) (mx : nat)
+| KPrw (n : nat) (nr ns dg : list nat) (mx : nat)
 | KParafacN (N sweeps fmlen : nat) (rm : option nat) (modes : list nat)
 | KHalsN (N sweeps sclen fmlen : nat) (fixed modes : list nat)
 | KTuckerN (N sweeps : nat) (modes : list nat)
@@ -39,7 +39,7 @@ Definition skeleton (k : skel) : cmd :=
   | KPlsrFit => sk_cp_plsr_fit
   | KCpNormalizeMethod => sk_cp_normalize_method
   | KTuckerNormalizeMethod => sk_tucker_normalize_method
-  | KPrw nr ns dg mx => sk_prw nr ns dg mx
+  | KPrw n nr ns dg mx => sk_prw n nr ns dg mx
   | KParafacN N sweeps fmlen rm modes => sk_parafac_gen N sweeps fmlen rm modes
   | KHalsN N sweeps sclen fmlen fixed modes => sk_nn_parafac_hals_gen N sweeps sclen fmlen fixed modes
   | KTuckerN N sweeps modes => sk_tucker_gen N sweeps modes
